@@ -622,10 +622,37 @@ func C15(c *Ctx) {
 	for _, fnName := range []string{"(ab/defaults.Redirector).redirectNonAPI", "(ab/defaults.Redirector).redirectAPI"} {
 		fn := c.P.FuncOpt(fnName)
 		if fn == nil {
+			// the mode folded into another function of the redirector: found by its sink
+			api := strings.HasSuffix(fnName, "redirectAPI")
+			var cands []*ssa.Function
+			for _, f := range c.P.Funcs {
+				if pkgOf(f) != "ab/defaults" || !strings.Contains(FuncName(f), "Redirector)") {
+					continue
+				}
+				hasRedirect := len(CallsTo(f, "net/http.Redirect")) > 0
+				hasLocation := false
+				for _, b := range f.Blocks {
+					for _, in := range b.Instrs {
+						if mu, ok := in.(*ssa.MapUpdate); ok {
+							if k, isC := ConstStr(stripMI(mu.Key)); isC && k == "location" {
+								hasLocation = true
+							}
+						}
+					}
+				}
+				if (api && hasLocation && !hasRedirect) || (!api && hasRedirect && !hasLocation) {
+					cands = append(cands, f)
+				}
+			}
+			if len(cands) == 1 {
+				fn = cands[0]
+			}
+		}
+		if fn == nil {
 			r.Unknown("C15.guard", fnName, "function", "-", "default redirector mode not found")
 			continue
 		}
-		v := c.redirectorMode(fn)
+		v := c.redirectorMode(fn, fnName)
 		if v != nil {
 			verdicts = append(verdicts, v)
 			fnNames = append(fnNames, fnName)
@@ -646,9 +673,10 @@ func C15(c *Ctx) {
 
 // redirectorMode analyses one mode of the default redirector; returns the
 // verdict per witness ("blocked", "followed", "undecided").
-func (c *Ctx) redirectorMode(fn *ssa.Function) []string {
+func (c *Ctx) redirectorMode(fn *ssa.Function, name string) []string {
 	r := c.R
-	name := FuncName(fn)
+	// (obligations keep the mode's canonical name when the mode was folded into
+	// another function, so that what is known about the mode stays attached to it)
 	// source
 	var src *ssa.Call
 	for _, call := range CallsTo(fn, "(*net/http.Request).FormValue") {
